@@ -126,6 +126,53 @@ func c06Scenarios(tier string) []*Scenario {
 			scs = append(scs, sc)
 		}
 	}
+	// a daemon (is_daemon: the launcher has exited 0, the process is reported Launched) with a shutdown.command:
+	// no command of it is alive, so the stop command is the only way its daemonised descendant is ever ended -
+	// a stop request or the project shutdown has to run it, once
+	for _, source := range []string{"stop", "shutdown"} {
+		for _, ordered := range []bool{false, true} {
+			if source == "stop" && ordered {
+				continue
+			}
+			source := source
+			sc := &Scenario{ID: fmt.Sprintf("c06-daemon-launched-cmd-%s-ordered%v", source, ordered), K: 1, TickBudget: 2, Idle: 25 * time.Second, Ordered: ordered}
+			sc.YAML = projectYAML(nil, PC{Name: "a", Lines: []string{"is_daemon: true", "shutdown:", "  command: \"stopcmd-a\"", "  timeout_seconds: 2"}}, PC{Name: "x"})
+			sc.Procs = map[string]*ProcScript{"a": {Launches: exits(0)}, "x": {}}
+			sc.Aux = map[string][]string{"stopcmd-a": {"ok"}}
+			launchedA := func(w *World) bool { return w.lastStat["a"] == "Launched" }
+			if source == "stop" {
+				sc.API = [][]APICall{{{Op: "stop", Name: "a", When: launchedA}, {Op: "shutdown"}}}
+			} else {
+				sc.API = [][]APICall{{{Op: "shutdown", When: launchedA}}}
+			}
+			sc.Check = func(w *World) []Violation {
+				var vs []Violation
+				tr := w.pre()
+				req := findEvent(tr, 0, func(e Event) bool { return e.Kind == "api-call" && strings.HasPrefix(e.Data, source) })
+				if req < 0 || statusAt(tr, "a", req) != "Launched" {
+					return nil
+				}
+				ret := findEvent(tr, req, func(e Event) bool { return e.Kind == "api-ret" && strings.HasPrefix(e.Data, source) })
+				if ret < 0 {
+					return nil
+				}
+				n := 0
+				for i := req; i < len(tr); i++ {
+					if tr[i].Kind == "aux-req" && tr[i].Proc == "aux:stopcmd-a" {
+						n++
+					}
+				}
+				if n == 0 && (w.Outcome == "completed" || w.Outcome == "stuck") {
+					vs = append(vs, viol("C06", "daemon-stop-command-not-run:"+source, "daemon a was Launched when the %s request arrived and the request returned, but its shutdown.command was never run (outcome %s)", source, w.Outcome))
+				}
+				if n > 1 {
+					vs = append(vs, viol("C06", "daemon-stop-command-twice:"+source, "the shutdown.command of daemon a was run %d times", n))
+				}
+				return vs
+			}
+			scs = append(scs, sc)
+		}
+	}
 	return scs
 }
 
